@@ -297,13 +297,34 @@ theorem wire_line (l : Str) (h : WellFormedLine l) :
 
 /-- a plain copy (`IrcMsg(msg=m)`, as `Misc.more`, `Utilities.let` and the emulated echo of `takeMsg`
 make) is the message itself: it serialises to the same line, so `take_line` holds through it -/
-theorem copy_without_overrides (m : C05.Msg) : ctorCopy m [] [] [] = m := by
+theorem copy_without_overrides (m : C05.Msg) : ctorCopy m [] [] [] = .ok m := by
   cases m; rfl
 
-/-- the `msg=` branch of the constructor checks nothing: the full statement "every constructed
-message is one line" needs the inventory obligation in `out_tables_ok` -/
-theorem copy_bypasses_assertion :
-    wellFormedLine (C05.format (ctorCopy ⟨[], "PRIVMSG".toList, ["#c".toList, "ok".toList], []⟩ [] []
-      ["#c".toList, "a\r\nQUIT :bye".toList])) = false := by decide
+/-- **The `msg=` form is a funnel too** (since its fix): a message rebuilt from a well-formed one with
+new arguments — what the outFilter rewriters of Filter, BadWords, Google, ShrinkUrl do with text they
+computed or fetched — either raises the `AssertionError` or serialises to exactly one line. -/
+theorem copy_line (base : C05.Msg) (pfx command : Str) (args : List Str) (m : C05.Msg)
+    (h : ctorCopy base pfx command args = .ok m)
+    (hb : Clean base.pfx ∧ Clean base.command ∧ (∀ a ∈ base.args, Clean a) ∧ CleanTags base.tags)
+    (hp : Clean pfx) (hc : Clean command) : WellFormedLine (C05.format m) := by
+  have tk := out_tables_ok
+  obtain ⟨hbp, hbc, hba, hbt⟩ := hb
+  have hp' : Clean (if pfx = [] then base.pfx else pfx) := by split <;> assumption
+  have hc' : Clean (if command = [] then base.command else command) := by split <;> assumption
+  unfold ctorCopy at h
+  split at h
+  · injection h with h; subst h
+    exact format_wellFormed tk _ hp' hc' hba hbt
+  · split at h
+    · rename_i hall
+      injection h with h; subst h
+      rw [List.all_eq_true] at hall
+      exact format_wellFormed tk _ hp' hc' (fun a ha => (validArg_iff tk a).1 (hall a ha)) hbt
+    · cases h
+
+/-- … e.g. the smuggling attempt is refused -/
+theorem copy_refuses_smuggling :
+    ctorCopy ⟨[], "PRIVMSG".toList, ["#c".toList, "ok".toList], []⟩ [] []
+      ["#c".toList, "a\r\nQUIT :bye".toList] = .assertFail := by decide
 
 end C06
